@@ -199,7 +199,43 @@ pub fn h_custom<M: VMode>() {
     });
 }
 
+/// `just` of a two-token sequence (a loop over the pattern): bounded by the pattern length.
+pub fn h_just_seq2<M: VMode>() {
+    run::<u8, VErr, (), _>(|inp, s0| {
+        let pat = [ch::any_u8(), ch::any_u8()];
+        let r = just::<[u8; 2], SymIn<u8>, X<VErr>>(pat).go::<M>(inp);
+        let s = snap(inp);
+        let alt = alt_full(inp);
+        let t0 = if s0.pos < s0.len { Some(inp.cache.tok_at(s0.pos)) } else { None };
+        let t1 = if s0.pos < s0.len && s0.pos + 1 < s0.len { Some(inp.cache.tok_at(s0.pos + 1)) } else { None };
+        let m0 = t0 == Some(pat[0]);
+        let m1 = t1 == Some(pat[1]);
+        vassert!(r.is_ok() == (m0 && m1), "C01/just_seq.accepts-iff-every-token-of-the-pattern-matches-in-order");
+        vassert!(s.nsec == s0.nsec, "C05/just_seq.emits-nothing");
+        if r.is_ok() {
+            vcover!(true, "just_seq: accepted");
+            vassert!(s.pos == s0.pos + 2 && s.believed == s.pos, "C01/just_seq.consumes-exactly-the-pattern");
+            vassert!(ok_with::<M, _>(&r, pat), "C01/just_seq.output-is-the-pattern");
+        } else {
+            vcover!(m0 && !m1, "just_seq: second token mismatches");
+            vassert!(alt.is_some(), "C20/just_seq.failure-leaves-pending-error");
+            // the mismatch is reported at the offending token, by priority
+            let at = if m0 { s0.pos + 1 } else { s0.pos };
+            let here = if m0 { t1 } else { t0 };
+            let s1 = S0 { len: s0.len, pos: at, nsec: s0.nsec, alt: s0.alt };
+            let (prio, span, found) = prim_alt_spec(&s1, alt, here.map(|t| t.code()));
+            vassert!(prio, "C06/just_seq.failure-offered-at-the-offending-token-by-priority");
+            vassert!(span, "C06/just_seq.error-span-is-the-offending-token");
+            vassert!(found, "C06/just_seq.found-is-token-at-span-start-none-only-at-end");
+        }
+    });
+}
+
 harnesses! {
+    #[kani::unwind(5)]
+    just_seq2_emit_b2 = h_just_seq2::<Emit>;
+    #[kani::unwind(5)]
+    just_seq2_check_b2 = h_just_seq2::<Check>;
     any_emit = h_any::<Emit>;
     any_check = h_any::<Check>;
     just_emit = h_just::<Emit>;
